@@ -26,7 +26,7 @@ RULE = ("Exhaustive enumeration (no random choice): (A) all 2^7 presence pattern
         "the target arguments (incl. all_classes_mode), each also with present-but-empty raw_graph='' / rdflib Graph(); (B) every single source x every valid target pattern x compression "
         "{None,gz,zip,xz,bogus} x input formats + bogus x examples modes + bogus x the 4 or-flag combinations (quick: examples/or-flags "
         "cycled instead of multiplied); (C) thresholds {-0.01,0,1,1.01} x output formats {ShEx,Shacl,bogus} x sinks {none,string,"
-        "file,both}.  Oracle: reference predicate; constructor / shex_graph raise ValueError <=> predicate says invalid, any other "
+        "file,both,uml,uml+string} (the PlantUML call is replaced by a recorder).  Oracle: reference predicate; constructor / shex_graph raise ValueError <=> predicate says invalid, any other "
         "exception type is a violation, and an accepted configuration must complete a shex_graph call on a tiny graph served in the "
         "declared format/compression (no deferral).  Non-trivial: the configuration differs from a valid one in at most one argument "
         "group (the accept/reject boundary) - all are counted; distinct by the case itself.")
@@ -188,23 +188,37 @@ def check(c):
         if crash is not None:
             return _deferred(crash, "constructor rejected a valid configuration with %s: %s" % (crash, desc), labels, nt, c)
         out_path = os.path.join(d, "out.shex")
+        uml_path = os.path.join(d, "out.png")
         skw = {"acceptance_threshold": call["thr"], "output_format": call["fmt"]}
-        if call["sink"] in ("string", "both"):
+        if call["sink"] in ("string", "both", "uml+string"):
             skw["string_output"] = True
         if call["sink"] in ("file", "both"):
             skw["output_file"] = out_path
+        if call["sink"] in ("uml", "uml+string"):
+            skw["to_uml_path"] = uml_path
+        # the UML diagram needs a PlantUML server; it is replaced from outside by a recorder (no repository hook)
+        uml_calls = []
+        holder["s"]._generate_uml_diagram = lambda path: uml_calls.append(path)
         res, crash = sut.guarded(lambda: holder["s"].shex_graph(**skw), 30)
         if exp_call:
             if crash is None:
                 return violation("shex_graph accepted an invalid call (%s): %s" % ("; ".join(exp_call), call), labels, nt)
             if crash.type != "ValueError":
                 return violation("shex_graph rejected (%s) with %s instead of ValueError" % ("; ".join(exp_call), crash), labels, nt)
+            # "rejected up front": nothing was produced and no extraction work was started before the ValueError
+            if uml_calls or os.path.exists(out_path):
+                return violation("invalid call (%s) was rejected only after output had been produced (uml=%s, file=%s): %s" % (
+                    "; ".join(exp_call), uml_calls, os.path.exists(out_path), call), labels, nt)
+            if holder["s"]._target_classes_dict is not None:
+                return violation("invalid call (%s) was rejected only after the extraction had been run (deferred failure): %s" % ("; ".join(exp_call), call), labels, nt)
             return ok(labels, nt)
+        if crash is None and call["sink"] in ("uml", "uml+string") and uml_calls != [uml_path]:
+            return violation("to_uml_path given but the diagram generator was called %s" % uml_calls, labels, nt)
         if crash is not None:
             return _deferred(crash, "accepted configuration fails later in shex_graph with %s: %s" % (crash, desc), labels, nt, c)
-        if call["sink"] in ("string", "both") and not (isinstance(res, str) and ("{" in res or c.get("empty")) if call["fmt"] == "ShEx" else isinstance(res, str)):
+        if call["sink"] in ("string", "both", "uml+string") and not (isinstance(res, str) and ("{" in res or c.get("empty")) if call["fmt"] == "ShEx" else isinstance(res, str)):
             return violation("accepted configuration returned %r" % (res,), labels, nt)
-        if call["sink"] in ("string", "both") and call["fmt"] == "ShEx" and call["thr"] == 0 and not c.get("empty") and EX + "p" not in res and "ex:p" not in res:
+        if call["sink"] in ("string", "both", "uml+string") and call["fmt"] == "ShEx" and call["thr"] == 0 and not c.get("empty") and EX + "p" not in res and "ex:p" not in res:
             return violation("accepted configuration produced shapes without the data's property (graph not read?): %s\n%s" % (desc, res), labels, nt)
     return ok(labels, nt)
 
@@ -298,5 +312,5 @@ def enumerate_cases(tier):
     # (C) call-time checks
     for thr in (-0.01, 0, 1, 1.01):
         for fmt in ("ShEx", "Shacl", "bogus"):
-            for sink in ("none", "string", "file", "both"):
+            for sink in ("none", "string", "file", "both", "uml", "uml+string"):
                 yield dict(base, sources=["raw_graph"], targets=[], all_classes=True, call={"thr": thr, "fmt": fmt, "sink": sink})
